@@ -3,13 +3,17 @@ package props
 import (
 	"fmt"
 	"go/ast"
+	"go/token"
 	"go/types"
 	"math/big"
+	"strings"
 
 	"gocv/ir"
 	"gocv/smt"
 	"gocv/spec"
 	"gocv/sx"
+
+	"golang.org/x/tools/go/ssa"
 )
 
 func bigInt(v int64) *big.Int { return big.NewInt(v) }
@@ -18,7 +22,7 @@ func bigInt(v int64) *big.Int { return big.NewInt(v) }
 // denotes the free variable leaf.<name>; other keys denote per-key variables.
 func (c *Ctx) leafEnv(p *sx.Path) *ir.Env {
 	return &ir.Env{
-		BigLimit: 64,
+		BigLimit: 1, // multiplication and division are uninterpreted symbols shared by code and specification (ground axioms in vc/axioms.go)
 		Reg: func(key sx.Str, w int) *smt.Term {
 			if !key.Concrete() {
 				panic(sx.Unsupported{Msg: "symbolic register key outside the RISC-V environment"})
@@ -52,8 +56,138 @@ func (c *Ctx) den(p *sx.Path) *ir.Den {
 	env, ok := p.Ghost["env"].(*ir.Env)
 	if !ok {
 		env = c.leafEnv(p)
+	} else {
+		// leaves created by leaf() and by contract application ("$..." keys)
+		// are resolved here, everything else by the installed environment
+		inner := env
+		env = &ir.Env{BigLimit: inner.BigLimit, Mem: inner.Mem, Reg: func(key sx.Str, w int) *smt.Term {
+			if key.Concrete() && strings.HasPrefix(key.S, "$") {
+				if t, ok := p.Ghost["leaf:"+key.S]; ok {
+					return smt.Resize(t.(*smt.Term), 8*w)
+				}
+			}
+			return inner.Reg(key, w)
+		}}
 	}
 	return &ir.Den{T: c.IR, P: p, Env: env}
+}
+
+// gadgetHook replaces calls of exprtools functions that have a contract by
+// that contract: the precondition becomes an obligation of the caller, the
+// result is an opaque expression leaf of the promised width about whose value
+// exactly the postconditions are assumed. except names the function under
+// verification itself (never replaced).
+func (c *Ctx) gadgetHook(except string) func(p *sx.Path, fn *ssa.Function, args []sx.Val, site ssa.Instruction) (sx.Val, bool) {
+	return func(p *sx.Path, fn *ssa.Function, args []sx.Val, site ssa.Instruction) (sx.Val, bool) {
+		name := sx.FuncName(fn)
+		if name == except || !strings.HasPrefix(name, "expr/exprtools.") {
+			return nil, false
+		}
+		ct, ok := c.Contracts[name]
+		if !ok || len(ct.Ensures) == 0 || ct.Panics != nil {
+			return nil, false
+		}
+		var pkg *types.Package
+		if fn.Pkg != nil {
+			pkg = fn.Pkg.Pkg
+		}
+		ev := c.NewEval(p, pkg)
+		d := c.den(p)
+		// bind parameters; enum variables take the actual values
+		enumOf := map[string]bool{}
+		for _, e := range ct.Enums {
+			enumOf[e.Var] = true
+		}
+		for i, prm := range fn.Params {
+			ev.Vars[prm.Name()] = spec.TV{V: args[i], T: prm.Type()}
+			if enumOf[prm.Name()] {
+				k, ok := sx.ConstInt(args[i])
+				if !ok {
+					return nil, false
+				}
+				ev.Vars[prm.Name()] = spec.TV{V: big.NewInt(k)}
+			}
+		}
+		for key, in := range ct.Opts {
+			if !strings.HasPrefix(key, "input:") {
+				continue
+			}
+			// "input:e leaf(ew)": ew is the width of the actual argument e
+			in = strings.TrimSpace(in)
+			if strings.HasPrefix(in, "leaf(") && strings.HasSuffix(in, ")") {
+				v := strings.TrimSuffix(strings.TrimPrefix(in, "leaf("), ")")
+				if !enumOf[v] {
+					continue
+				}
+				arg, ok := ev.Vars[strings.TrimPrefix(key, "input:")]
+				if !ok {
+					continue
+				}
+				if _, done := ev.Vars[v]; done && ev.Vars[v].T == nil {
+					if _, isBig := ev.Vars[v].V.(*big.Int); isBig {
+						continue
+					}
+				}
+				func() {
+					defer func() { recover() }()
+					ev.Vars[v] = spec.TV{V: big.NewInt(int64(d.Width(asIface(arg))))}
+				}()
+			}
+		}
+		for _, e := range ct.Enums {
+			if _, ok := ev.Vars[e.Var]; !ok {
+				return nil, false
+			}
+		}
+		okc := true
+		var res sx.Val
+		func() {
+			defer func() {
+				if r := recover(); r != nil {
+					if _, isE := r.(spec.EvalError); isE {
+						okc = false
+						return
+					}
+					panic(r)
+				}
+			}()
+			for k, r := range ct.Requires {
+				p.Assert(fmt.Sprintf("%s/requires/%d", name, k+1), "pre", ev.Bool(r.Expr), fmt.Sprintf("%s:%d", relFile(ct.File), r.Line), "precondition of "+name+": "+r.Text)
+			}
+			// the width promised by the first postcondition "width(result) == W"
+			w := -1
+			for _, e := range ct.Ensures {
+				if be, ok := e.Expr.(*ast.BinaryExpr); ok && be.Op == token.EQL {
+					if call, ok := be.X.(*ast.CallExpr); ok {
+						if id, ok := call.Fun.(*ast.Ident); ok && id.Name == "width" {
+							w = int(constArg(ev, be.Y, "width"))
+							break
+						}
+					}
+				}
+			}
+			if w < 0 {
+				okc = false
+				return
+			}
+			n := len(p.Ghost)
+			lname := fmt.Sprintf("$r%d", n)
+			if w > 0 {
+				p.Ghost["leaf:"+lname] = p.Fresh("res."+strings.TrimPrefix(name, "expr/exprtools."), smt.BV(8*w))
+			} else {
+				p.Ghost["leaf:"+lname] = nil
+			}
+			res = c.IR.MkRegLoad(lname, w)
+			ev.Vars["result"] = spec.TV{V: res, T: fn.Signature.Results().At(0).Type()}
+			for _, e := range ct.Ensures {
+				p.Assume(ev.Bool(e.Expr))
+			}
+		}()
+		if !okc {
+			return nil, false
+		}
+		return res, true
+	}
 }
 
 func constArg(ev *spec.Eval, a ast.Expr, what string) int64 {
@@ -157,7 +291,7 @@ func (c *Ctx) installBuiltins(ev *spec.Eval) {
 	// sdivspec: truncating signed division (SMT-LIB bvsdiv; the overflow
 	// case MIN / -1 yields MIN, the zero-divisor case is excluded by callers)
 	B["sdivspec"] = bin(func(x, y *smt.Term) *smt.Term {
-		if x.S.W <= 64 {
+		if x.S.W <= 0 {
 			return smt.BVSDiv(x, y)
 		}
 		// above 64 bits: |x| udiv |y| with the quotient's sign, over the
